@@ -386,11 +386,52 @@ func runObsCase(t *testing.T, c *c16ObsCase) {
 		if len(ob.Bytes) > 200 {
 			ob.Bytes = ob.Bytes[:200]
 		}
+		// the bytes handed to the protocol are the plug-in's to give away: a later observation of the same process (the
+		// next round: one more head with another block number of the same length, same registry) must leave them alone
+		if n := len(c.Heads); n > 0 && !oerr2(oerr) && len(b) > 0 {
+			want := append([]byte(nil), b...)
+			h := c.Heads[n-1]
+			if nb := sameLenOtherBlock(h.Block); nb != "" {
+				for k := 0; k < 3; k++ {
+					nd.reg.set(h.IDs, h.RegErr)
+					nd.run.set(h.Script, h.Mode)
+					nd.heads.ch <- ocr2keepers.BlockKey(nb)
+					synctest.Wait()
+					nd.run.take()
+					_, _ = nd.plugin.Observation(context.Background(), ocr2types.ReportTimestamp{Epoch: c.Epoch, Round: c.Round + 1}, nil)
+				}
+				if !bytes.Equal(b, want) {
+					b = []byte("observation bytes changed after they were returned")
+					ob.Len = len(b)
+					ob.Bytes = string(b)
+				}
+			}
+		}
 		d := decodeObs(b)
 		ob.Decodes = !d.IsRaw
 		ob.Block, ob.IDs = d.Block, d.IDs
 		c.Observed = ob
 	})
+}
+
+func oerr2(err error) bool { return err != nil }
+
+// a decimal block number of the same length, differing in its last digit ("" when the input is not a plain numeral)
+func sameLenOtherBlock(b string) string {
+	if b == "" {
+		return ""
+	}
+	for _, c := range b {
+		if c < '0' || c > '9' {
+			return ""
+		}
+	}
+	last := b[len(b)-1]
+	nl := byte('0' + (last-'0'+1)%10)
+	if len(b) == 1 && nl == '0' {
+		nl = '1'
+	}
+	return b[:len(b)-1] + string(nl)
 }
 
 func numList(xs []string) string { return CoqList(xs, numOf) }
